@@ -882,3 +882,73 @@ RVG = "refactors/v-generic/patch.diff"
 mutant("rvg-into-bool-accepts-int",
        [("src/eval/value.rs", "        Value::Bool(b) => Ok(b),\n        v => Err(v),", "        Value::Bool(b) => Ok(b),\n        Value::Int(n) => Ok(n != 0),\n        v => Err(v),")],
        [("C16", "R16.2")], base=RVG, note="generic coercion helpers + the narrowing function for conditions silently converts ints")
+
+# ---- session 5 (-f batch): R14.6 path-sensitive, R12.9, R11.7 ---------------------
+S = "src/eval/scope.rs"
+V = "src/eval/value.rs"
+mutant("c14-set-keeps-source-when-new-has-none",
+       [(S, "pub fn set(slot: &mut SourcedValue, v: SourcedValue) {\n    *slot = v;\n}",
+            "pub fn set(slot: &mut SourcedValue, v: SourcedValue) {\n    let SourcedValue{v, source} = v;\n\n    slot.v = v;\n    if source.is_some() {\n        slot.source = source;\n    }\n}")],
+       [("C14", "R14.6")], note="conditional store of the other half (seeded C14-f)")
+refactor("c14-set-fieldwise-both-halves",
+         [(S, "pub fn set(slot: &mut SourcedValue, v: SourcedValue) {\n    *slot = v;\n}",
+              "pub fn set(slot: &mut SourcedValue, v: SourcedValue) {\n    let SourcedValue{v, source} = v;\n\n    slot.v = v;\n    slot.source = source;\n}")],
+         note="both halves stored unconditionally, field by field")
+refactor("c14-set-fieldwise-source-first-then-branch",
+         [(S, "pub fn set(slot: &mut SourcedValue, v: SourcedValue) {\n    *slot = v;\n}",
+              "pub fn set(slot: &mut SourcedValue, v: SourcedValue) {\n    let SourcedValue{v, source} = v;\n\n    slot.source = source;\n    if slot.source.is_some() {\n        slot.v = v;\n    } else {\n        slot.v = v;\n    }\n}")],
+         note="the source store dominates both payload stores")
+_SPREAD_OLD = ("                                    for (name, value) in &lock_deref!(props) {\n"
+               "                                        vals.insert(\n"
+               "                                            name.to_string(),\n"
+               "                                            value.clone(),\n"
+               "                                        );\n"
+               "                                    }\n")
+mutant("c12-spread-merged-append-accumulator",
+       [(E, _SPREAD_OLD,
+            "                                    let mut merged = lock_deref!(props).clone();\n"
+            "                                    merged.append(&mut vals);\n"
+            "                                    vals = merged;\n")],
+       [("C12", "R12.9")], note="earlier entries folded over a later spread (seeded C12-f without the threshold)")
+mutant("c12-spread-merged-extend-accumulator",
+       [(E, _SPREAD_OLD,
+            "                                    let mut merged = lock_deref!(props).clone();\n"
+            "                                    merged.extend(std::mem::take(&mut vals));\n"
+            "                                    vals = merged;\n")],
+       [("C12", "R12.9")], note="the same through Extend::extend")
+refactor("c12-spread-extend-into-accumulator",
+         [(E, _SPREAD_OLD,
+              "                                    let copy = lock_deref!(props).clone();\n"
+              "                                    vals.extend(copy);\n")],
+         note="bulk merge in the right direction: the accumulator is the receiver")
+refactor("c12-spread-append-into-accumulator",
+         [(E, _SPREAD_OLD,
+              "                                    let mut copy = lock_deref!(props).clone();\n"
+              "                                    vals.append(&mut copy);\n")],
+         note="BTreeMap::append with the accumulator as the receiver")
+_CHARS_OLD = ("                            let chars: Vec<SourcedValue> =\n"
+              "                                s.iter()\n"
+              "                                    .map(|c| value::new_str(vec![*c]))\n"
+              "                                    .collect();\n")
+mutant("c11-range-assign-string-by-chars",
+       [(B, _CHARS_OLD,
+            "                            let chars: Vec<SourcedValue> =\n"
+            "                                String::from_utf8_lossy(&s).chars()\n"
+            "                                    .map(|c| value::new_str_from_string(c.to_string()))\n"
+            "                                    .collect();\n")],
+       [("C11", "R11.7")], note="string spread over list slots per character (seeded C11-f inline)")
+mutant("c11-range-assign-string-by-chars-loop",
+       [(B, _CHARS_OLD,
+            "                            let mut chars: Vec<SourcedValue> = vec![];\n"
+            "                            let text = String::from_utf8_lossy(&s).to_string();\n"
+            "                            for (_, c) in text.char_indices() {\n"
+            "                                chars.push(value::new_str_from_string(c.to_string()));\n"
+            "                            }\n")],
+       [("C11", "R11.7")], note="the same as a loop stepping CharIndices")
+refactor("c11-range-assign-string-bytes-loop",
+         [(B, _CHARS_OLD,
+              "                            let mut chars: Vec<SourcedValue> = vec![];\n"
+              "                            for c in s.iter() {\n"
+              "                                chars.push(value::new_str(vec![*c]));\n"
+              "                            }\n")],
+         note="byte-wise split written as a loop")
